@@ -29,8 +29,14 @@ FreshNonce(obs) == obs.nonce = 0 \/ obs.nonce = obs.nseen + 1
 PreludeRead(b, obs) ==
   (obs.res = "ok" /\ b.layer = "prelude" /\ "pread" \in DOMAIN obs /\ obs.pread # "na") => obs.pread = DefaultParserVerdict(b)
 
+\* C05 / C06: the harness reports which of the instance's footers / assertions authenticates the built
+\* token ("na": the protocol has no implicit assertions); it must be the pair set last on the builder
+FootBound(b, obs)   == (obs.res = "ok" /\ "bound" \in DOMAIN obs) => obs.bound.f = NormFA(b.footer)
+AssertBound(b, obs) == (obs.res = "ok" /\ "bound" \in DOMAIN obs) => obs.bound.a \in {"na", NormFA(b.assertion)}
+
 ObsAllowed(b, obs) ==
   /\ BuildAllowed(b, [res |-> obs.res, key |-> obs.key, payload |-> PayloadOf(obs)])
+  /\ FootBound(b, obs) /\ AssertBound(b, obs)
   /\ obs.res = "ok" => FreshNonce(obs)
   /\ PreludeRead(b, obs)
 
@@ -50,6 +56,8 @@ Why(b, obs) ==
   (IF unread THEN "C01 C02 built token is not accepted by the matching parser; " ELSE "")
   \o (IF unread /\ "alt" \in DOMAIN obs /\ obs.alt \in {"nofooter", "neither"} THEN "C05 it is accepted without the footer set on the builder; " ELSE "")
   \o (IF unread /\ "alt" \in DOMAIN obs /\ obs.alt \in {"noassertion", "neither"} THEN "C06 it is accepted without the assertion set on the builder; " ELSE "")
+  \o (IF ~FootBound(b, obs) THEN "C05 C01 C02 the token is bound to footer " \o obs.bound.f \o ", the builder's last footer is " \o b.footer \o "; " ELSE "")
+  \o (IF ~AssertBound(b, obs) THEN "C06 C01 C02 the token is bound to assertion " \o obs.bound.a \o ", the builder's last assertion is " \o b.assertion \o "; " ELSE "")
   \o (IF okres /\ ~FreshNonce(obs) THEN "C10 nonce repeated; " ELSE "")
   \o (IF okres /\ ~PreludeRead(b, obs) THEN "C01 C02 C11 C12 PasetoParser::default() on the built token: " \o obs.pread \o "; " ELSE "")
   \o (IF obs.res = "dup" /\ ~MayFail(b) THEN "C17 duplicate-claim error without a repeated key; " ELSE "")
